@@ -139,8 +139,9 @@ def add_tier_table(rep, tier):
                         else:
                             exp_names.insert(index, newname)  # the property's model *is* list.insert
                     diff = None
-                    if v["raised"] != exp_raise:
-                        diff = "raises %s, expected %s" % (v["raised"], exp_raise)
+                    pe = set(idx.module("utilities.errors").classes)
+                    if (v["raised"] is None) != (exp_raise is None) or (v["raised"] is not None and v["raised"] not in pe):
+                        diff = "raises %s, expected %s" % (v["raised"], exp_raise or "no error")
                     elif v["names"] != exp_names:
                         diff = "tier names %s, expected %s%s" % (v["names"], exp_names, " (a failed addTier must change nothing)" if exp_raise else "")
                     else:
